@@ -42,7 +42,7 @@ class TermMixin:
                 base = "tmp"
         for e in proj:
             if e == "*":
-                base = "*" + base
+                pass
             elif isinstance(e, dict):
                 if "f" in e:
                     base += ".%d" % e["f"]
@@ -91,9 +91,30 @@ class TermMixin:
         if k == "callrv":
             f = CFG.callee_of(rv["t"])
             nm = (f["path"].split("::")[-1] if f else "call")
-            return "%s(%s)" % (nm, ",".join(self.describe_operand(fr, a, depth + 1) for a in rv["t"]["args"][:3]))
+            aa = [self.describe_operand(fr, a, depth + 1) for a in rv["t"]["args"][:3]]
+            if nm in ("index", "index_mut") and len(aa) == 2:
+                return "%s[%s]" % (aa[0], aa[1])
+            if nm in ("deref", "deref_mut", "as_ref", "as_bytes", "borrow") and len(aa) == 1:
+                return aa[0]
+            if nm == "len" and len(aa) == 1:
+                return "%s.len()" % aa[0]
+            return "%s(%s)" % (nm, ",".join(aa))
         if k in ("ref", "copyderef"):
-            return "&" + self.describe_place(fr, rv["p"], depth)
+            return self.describe_place(fr, rv["p"], depth).lstrip("*")
+        if k == "agg":
+            ops = [self.describe_operand(fr, o, depth + 1) for o in rv["ops"]]
+            if rv["ak"] == "adt":
+                nm = rv["adt"].split("::")[-1]
+                if nm == "Range" and len(ops) == 2:
+                    return "%s..%s" % (ops[0], ops[1])
+                if nm == "RangeFrom" and len(ops) == 1:
+                    return "%s.." % ops[0]
+                if nm == "RangeTo" and len(ops) == 1:
+                    return "..%s" % ops[0]
+                if nm == "RangeFull":
+                    return ".."
+                return "%s{%s}" % (rv.get("vname") or nm, ",".join(ops))
+            return "(%s)" % ",".join(ops)
         if k == "discr":
             return "discr(%s)" % self.describe_place(fr, rv["p"], depth)
         return k
@@ -164,6 +185,23 @@ class TermMixin:
         return []
 
     def _want_partition(self, fr, b, kind, detail):
+        """Partition (key) only on input-shape predicates: variants of enums named by an access
+        path from the entry's parameters, bits/bools of input symbols.  Values produced by
+        calls (ret#, agg, opt, res, ...) are refined but never keyed."""
+        if self.key_all:
+            return True
+        if kind == "variant":
+            name = detail if isinstance(detail, str) else str(detail)
+            if re.match(r"^(ret#|agg|opt|res|ires|cf|next|ctor|nomerr|needed|utf8|find|chk|nz|dflt|residual|phi\(|hv\d|u#|t#|const|prom|resume|count|map#|mapped#|andthen#|err#|from#|join\()", name):
+                return False
+        elif kind == "cond":
+            ki = detail
+            if ki and ki[0] in ("bit", "sym"):
+                nm = ki[1]
+                if re.match(r"^(phi\(|hv\d|b2i#|bop#|cmp#|fcmp#|ovf#|ret#|u#|t#)", nm):
+                    return False
+            if ki and ki[0] == "variant":
+                return self._want_partition(fr, b, "variant", ki[1])
         if self.partition_filter is None:
             return True
         return self.partition_filter(fr, b, kind, detail)
@@ -209,21 +247,26 @@ class TermMixin:
                     for v, x in zip(vals, tg):
                         vi = T.variant_by_discr(ev.ty, v)
                         handled.add(vi)
-                        keep = tuple(z for z in ev.variants if z[0] == vi)
-                        if not keep:
+                        if not any(z[0] == vi for z in ev.variants):
                             continue
                         ns = st.fork()
-                        self.M.write_path(ns, loc, path, Enum(ev.ty, keep, ev.name))
-                        if len(ev.variants) > 1 and self._want_partition(fr, b, "variant", (ev.name, vi)):
+                        try:
+                            self.M.write_path(ns, loc, path, self.M.refine_enum(ns, ev, {vi}))
+                        except Dead:
+                            continue
+                        if len(ev.variants) > 1 and self._want_partition(fr, b, "variant", ev.name):
                             ns.key = ns.key + (("variant", ev.name, T.variant_name(ev.ty, vi)),)
                         out.append((x, ns))
-                    rest = tuple(z for z in ev.variants if z[0] not in handled)
+                    rest = {z[0] for z in ev.variants if z[0] not in handled}
                     if rest:
                         ns = st.fork()
-                        self.M.write_path(ns, loc, path, Enum(ev.ty, rest, ev.name))
-                        if len(ev.variants) > len(rest) and self._want_partition(fr, b, "variant", (ev.name, "other")):
-                            ns.key = ns.key + (("variant", ev.name, "|".join(self.T.variant_name(ev.ty, z[0]) for z in rest)),)
-                        out.append((other, ns))
+                        try:
+                            self.M.write_path(ns, loc, path, self.M.refine_enum(ns, ev, rest))
+                            if len(ev.variants) > len(rest) and self._want_partition(fr, b, "variant", ev.name):
+                                ns.key = ns.key + (("variant", ev.name, "|".join(self.T.variant_name(ev.ty, z) for z in sorted(rest))),)
+                            out.append((other, ns))
+                        except Dead:
+                            pass
                     return out
             if d.lin.is_const():
                 for v, x in zip(vals, tg):
@@ -391,6 +434,11 @@ class TermMixin:
         # coroutine resume asserts etc.: not panics of interest
         return [(t["t"], st)]
 
+    def key_outcome(self, st, kind, label):
+        """Contracts call this for their own outcome distinctions (utf8 ok/err, find some/none)."""
+        if self.key_all or kind in self.keyed_events:
+            st.key = st.key + ((kind, label),)
+
     def _len_derived(self, st, lin):
         """Is the expression a non-negative combination of length symbols of live objects plus a small constant?"""
         if lin.c < 0 or lin.c > (1 << 32):
@@ -423,21 +471,20 @@ class TermMixin:
         if t.get("t") is None:
             return []
         out = []
-        if len(outcomes) > 1:
-            # outcomes that differ in the returned variant stay apart (their facts are variant-specific)
+        if len(outcomes) > 1 and self.key_all:
+            # full path sensitivity requested (small functions): outcomes that return different
+            # variants stay apart
             labels = []
             for (ns, rv) in outcomes:
                 if isinstance(rv, Enum) and len(rv.variants) == 1:
                     labels.append(self.T.variant_name(rv.ty, rv.variants[0][0]) if isinstance(rv.ty, int) and self.T.adt(rv.ty) else str(rv.variants[0][0]))
-                elif isinstance(rv, Bool) and rv.cond[0] == "const":
-                    labels.append(str(rv.cond[1]))
                 else:
                     labels.append(None)
             if len(set(labels)) > 1:
                 cf = CFG.callee_of(t)
                 nm = (cf["path"].split("::")[-1] if cf else "call")
                 for (ns, rv), lb in zip(outcomes, labels):
-                    if lb is not None and (not ns.key or ns.key[-1] != ("out", nm, lb)):
+                    if lb is not None:
                         ns.key = ns.key + (("out", nm, lb),)
         for (ns, rv) in outcomes:
             if rv is None:
